@@ -177,6 +177,24 @@ def commentOf (cur : Option Str) : List Str → Option Str
 /-- a CRLF file: a `"\r"` at the end of every line that does not open a multi-line string -/
 def addCR (l : Str) : Str := if isOpener (strip l) then l else l ++ ['\r']
 
+/-- a one-line `"""…"""` comment (as `raw_line.strip()`): the text between the markers -/
+def oneLineBlock (s : Str) : Option Str :=
+  let p := firstPart s
+  if !s.isEmpty && !isOpener s && !startsWith s ['#'] && startsWith p q3 && !(p == q3 || !endsWith p q3)
+  then some ((p.drop 3).dropLast.dropLast.dropLast) else none
+
+/-- the pending comment after a block of blank lines, `# …` lines (gathered with `"\n"`) and one-line `\"\"\"…\"\"\"` comments (which REPLACE what
+    was gathered so far, as the code does) -/
+def commentOfB (cur : Option Str) : List Str → Option Str
+  | [] => cur
+  | l :: ls =>
+    match strip l with
+    | '#' :: c => commentOfB (addComment cur (strip c)) ls
+    | s =>
+      match oneLineBlock s with
+      | some body => commentOfB (some body) ls
+      | none => commentOfB cur ls
+
 /-! ### from the file content -/
 
 /-- `content.split("\n")` -/
